@@ -10,6 +10,9 @@ import (
 	"math/rand"
 	"os"
 	"path/filepath"
+	"time"
+
+	"github.com/glowlabs-org/gca-backend/server"
 
 	"verifharness/lib/drv"
 	"verifharness/lib/ev"
@@ -319,28 +322,117 @@ func childMigSize(b run.Batch, r *ev.Result) {
 	orderFree := func(rep refenc.SyncReply) bool {
 		return rep.NewGCA == [32]byte{} && len(rep.Servers) == 0 && rep.MigSig == [64]byte{}
 	}
+	// The server reads a request for at most ServerShutdownTime/2 (2.5 s in the
+	// test build); a body cut short by that timeout is answered 400 'Invalid
+	// request body'. The deadline starts when the request's first bytes
+	// arrive, so an exchange that took less than fastLimit in total, measured
+	// here around the single request (body written in one go on loopback),
+	// cannot have hit it: three consecutive fast 400s are the server's own
+	// verdict on the body. A slow 400 or a transport error is retried (the
+	// identical order is idempotent) and decides nothing if it persists.
+	readTimeout := server.VerifConsts().ServerShutdownTime / 2
+	fastLimit := time.Second
+	if readTimeout/2 < fastLimit {
+		fastLimit = readTimeout / 2
+	}
 	post := func(m refenc.Migration) (int, []byte, bool) {
-		run.Op("equipment-migrate order of %d bytes, %d servers", len(m.Bytes()), len(m.Servers))
-		st, body, err := a.PostMigration(m)
-		// A transport error, or a 400 'Invalid request body' (the server's
-		// 2.5 s read timeout cut the ~300 KB body short on an overloaded
-		// machine), is retried: the identical order is idempotent.
-		for try := 0; (err != nil || st == 400) && try < 4; try++ {
-			r.Count("migsize.post_retried", 1)
+		run.Op("equipment-migrate order of %d bytes, %d servers, %d JSON bytes", len(m.Bytes()), len(m.Servers), len(m.JSON()))
+		fast400 := 0
+		var st int
+		var body []byte
+		var err error
+		for try := 0; try < 7; try++ {
+			t0 := time.Now()
 			st, body, err = a.PostMigration(m)
+			el := time.Since(t0)
+			if err == nil && st != 400 {
+				return st, body, true
+			}
+			if err == nil && el < fastLimit {
+				fast400++
+				if fast400 >= 3 {
+					r.Count("migsize.fast_400_decided", 1)
+					return st, body, true
+				}
+				continue
+			}
+			fast400 = 0
+			r.Count("migsize.post_retried", 1)
 		}
-		if err != nil || st == 400 {
-			r.Inconc(fmt.Sprintf("POST /equipment-migrate did not get through in 5 attempts (status %d, %v): request read timeout on an overloaded machine", st, err))
-			return 0, nil, false
+		r.Inconc(fmt.Sprintf("POST /equipment-migrate did not get through in 7 attempts (status %d, %v): request read timeout on an overloaded machine", st, err))
+		return 0, nil, false
+	}
+	// accepted judges an order that must be accepted and then delivered
+	accepted := func(m refenc.Migration, what string) bool {
+		n := len(m.Bytes())
+		st, body, ok := post(m)
+		if !ok {
+			return false
 		}
-		return st, body, true
+		r.Eval(1)
+		r.Nontrivial(fmt.Sprintf("mig/%d/%x", n, m.Sig[:8]))
+		if st != 200 {
+			r.Violationf("deliverable-migration-refused", map[string]interface{}{"order_bytes": n, "servers": len(m.Servers), "json_bytes": len(m.JSON()), "limit": maxOrderLen, "status": st, "body": string(bytes.TrimSpace(body)), "case": what},
+				"%s: a validly signed migration order of %d bytes with %d servers (JSON body %d bytes; its sync reply has %d <= 65535 bytes) was refused: %d %s", what, n, len(m.Servers), len(m.JSON()), n+syncOther, st, bytes.TrimSpace(body))
+			return false
+		}
+		rep, raw, err := sync()
+		if err != nil && len(err.Error()) > 8 && err.Error()[:8] == "harness:" {
+			r.Inconc(err.Error())
+			return false
+		}
+		r.Eval(1)
+		r.Count("migsize.accepted_and_synced", 1)
+		r.Max("max.sync_reply_bytes", int64(len(raw)))
+		r.Max("max.migration_json_bytes", int64(len(m.JSON())))
+		same := err == nil && rep.DevKey == dev.Key.Pub && rep.NewGCA == m.NewGCA && rep.NewID == m.NewID && rep.MigSig == m.Sig && len(rep.Servers) == len(m.Servers)
+		for i := 0; same && i < len(m.Servers); i++ {
+			same = rep.Servers[i] == m.Servers[i]
+		}
+		if !same || len(raw) != 2+n+syncOther || !refenc.Verify(a.GCA.Pub, m.SigningBytes(), rep.MigSig) {
+			r.Violationf("sync-reply-does-not-carry-order", map[string]interface{}{"order_bytes": n, "reply_bytes": len(raw), "length_prefix": prefixOf(raw), "parse_error": fmt.Sprint(err), "case": what},
+				"%s: accepted %d byte order: the sync reply (%d bytes, length prefix %d, want %d) does not decode to that order: %v", what, n, len(raw), prefixOf(raw), n+syncOther, err)
+			return false
+		}
+		return true
 	}
 	rep, raw, err := sync()
 	if err != nil || !orderFree(rep) {
 		r.Inconc(fmt.Sprintf("baseline sync reply: %v (%d bytes)", err, len(raw)))
 		return
 	}
-	// ---- orders above the limit: refused, and the reply stays order-free and decodable
+	// ---- many-server orders well inside the serialized limit (their JSON
+	// bodies range from below 64 KiB to several hundred KiB): accepted and delivered
+	for _, cnt := range []int{100, 135, 140, 150, 250, 400, 520, 101 + rng.Intn(400)} {
+		room := (maxOrderLen-132)/cnt - 104 // location bytes per entry that still fit
+		if room > 255 {
+			room = 255
+		}
+		m := refenc.Migration{Equipment: dev.Key.Pub, NewGCA: newGCA.Pub, NewID: gU32(rng)}
+		for i := 0; i < cnt; i++ {
+			l := rng.Intn(room + 1)
+			if rng.Intn(3) == 0 {
+				l = room
+			}
+			m.Servers = append(m.Servers, mk(l))
+		}
+		m = m.Signed(a.GCA.Priv)
+		if !accepted(m, fmt.Sprintf("order with %d servers", cnt)) {
+			return
+		}
+		r.Count("migsize.large_orders_accepted", 1)
+	}
+	// take the order away again (an order with no servers is a valid order;
+	// the reply then carries it instead of a list) - the oversize probes
+	// below compare against this state
+	baseOrder := refenc.Migration{Equipment: dev.Key.Pub, NewGCA: newGCA.Pub, NewID: gU32(rng)}.Signed(a.GCA.Priv)
+	if !accepted(baseOrder, "order with no servers") {
+		return
+	}
+	orderFree = func(rep refenc.SyncReply) bool {
+		return rep.NewGCA == baseOrder.NewGCA && rep.NewID == baseOrder.NewID && len(rep.Servers) == 0 && rep.MigSig == baseOrder.Sig
+	}
+	// ---- orders above the limit: refused, and the reply stays as it was and decodable
 	rng.Shuffle(len(sizes), func(i, j int) { sizes[i], sizes[j] = sizes[j], sizes[i] })
 	for _, n := range sizes {
 		m, ok := build(n)
@@ -385,36 +477,7 @@ func childMigSize(b run.Batch, r *ev.Result) {
 			r.Inconc(fmt.Sprintf("harness could not build an order of exactly %d bytes", n))
 			return
 		}
-		st, body, ok := post(m)
-		if !ok {
-			return
-		}
-		r.Eval(1)
-		r.Nontrivial(fmt.Sprintf("mig/%d/%x", n, m.Sig[:8]))
-		if st != 200 {
-			r.Violationf("deliverable-migration-refused", map[string]interface{}{"order_bytes": n, "limit": maxOrderLen, "status": st, "body": string(bytes.TrimSpace(body))},
-				"a validly signed migration order of %d bytes (its sync reply has %d <= 65535 bytes) was refused: %d %s", n, n+syncOther, st, bytes.TrimSpace(body))
-			return
-		}
-		rep, raw, err := sync()
-		if err != nil && len(err.Error()) > 8 && err.Error()[:8] == "harness:" {
-			r.Inconc(err.Error())
-			return
-		}
-		r.Eval(1)
-		r.Count("migsize.accepted_and_synced", 1)
-		r.Max("max.sync_reply_bytes", int64(len(raw)))
-		same := err == nil && rep.DevKey == dev.Key.Pub && rep.NewGCA == m.NewGCA && rep.NewID == m.NewID && rep.MigSig == m.Sig && len(rep.Servers) == len(m.Servers)
-		for i := 0; same && i < len(m.Servers); i++ {
-			same = rep.Servers[i] == m.Servers[i]
-		}
-		if !same {
-			r.Violationf("sync-reply-does-not-carry-order", map[string]interface{}{"order_bytes": n, "reply_bytes": len(raw), "length_prefix": prefixOf(raw), "parse_error": fmt.Sprint(err)},
-				"accepted %d byte order: the sync reply (%d bytes, length prefix %d, want %d) does not decode to that order: %v", n, len(raw), prefixOf(raw), n+syncOther, err)
-			return
-		}
-		if len(raw) != 2+n+syncOther || !refenc.Verify(a.GCA.Pub, m.SigningBytes(), rep.MigSig) {
-			r.Violationf("sync-reply-does-not-carry-order", map[string]interface{}{"order_bytes": n, "reply_bytes": len(raw)}, "accepted %d byte order: reply has %d bytes, want %d", n, len(raw), 2+n+syncOther)
+		if !accepted(m, "order at the size limit") {
 			return
 		}
 		if n == maxOrderLen {
